@@ -67,11 +67,11 @@ def run(ctx):
     jobs.append(pool.submit(ctx.harness, cmd="group"))
 
     # 2. Gen
-    nrand = 150000 if thorough else 400
+    nrand = 100000 if thorough else 400
     gen_job = pool.submit(ctx.tlc, "GroupGen", "GroupGen.cfg",
                           consts={"MaxN": 4, "AwareN": 3 if thorough else 2, "KindN": 3 if thorough else 2,
                                   "NRand": nrand, "MaxRandN": 8},
-                          workers=4, timeout=1800)
+                          workers=4, timeout=3000)
     try:
         gen = gen_job.result()
         for j in jobs:
